@@ -74,9 +74,17 @@ fn take_last_error() -> Option<Box<dyn Error>> {
 #[no_mangle]
 pub unsafe extern "C" fn last_error_message() -> *const c_char {
     match take_last_error() {
-        Some(err) => CString::new(err.to_string().as_bytes())
-            .expect("Invalid Str")
-            .into_raw(),
+        Some(err) => {
+            // The message can embed caller data, a C string can not hold its NUL characters
+            let message: Vec<u8> = err
+                .to_string()
+                .into_bytes()
+                .into_iter()
+                .filter(|byte| *byte != 0)
+                .collect();
+            CString::new(message)
+                .map_or(std::ptr::null(), |message| message.into_raw() as *const c_char)
+        }
         None => std::ptr::null(),
     }
 }
